@@ -1,6 +1,6 @@
 import SV.Driver.Util
 import SV.Model.Toc
-import SV.Lemmas.TocAgree
+
 /-
 svdriver_c05: line protocol for the two TOC interpreters (`SV.Toc.memTree`, `SV.Toc.dbTree`).
 
